@@ -538,8 +538,9 @@ class C35(PropertyCheck):
             # source; None for a predicate: CPython 3.12 emits no line-less conditional jumps, only
             # line-less cleanup instructions, which reach the *line* registry).  Real runs are never
             # excused.
-            unreachable = any(n is not None and not in_range(n) for n in nums) or \
-                (part != "lines" and any(n is None for n in nums))
+            # Since /repo commit bc886c7 (fix for C02) line-less instructions no longer reach the line
+            # registry either, so a `None` line number is not producible in any part.
+            unreachable = any(n is None or not in_range(n) for n in nums)
             if unreachable and "real_obs" not in case:
                 self.count("oracle-skip:line-number-not-producible")
                 continue
@@ -742,14 +743,10 @@ class C35(PropertyCheck):
         return []
 
     def witnesses(self):
-        """Replay the known finding (a registered line whose number is None) on the real code."""
-        case = {"nsrc": 3, "branch": False, "line": True, "cos": [], "preds": [], "lines": [],
-                "regs": [{"co": 0, "file": FILE_A, "line": 1}, {"co": 1, "file": FILE_A, "line": None}],
-                "traces": [{"exec": [], "td": [], "fd": [], "cov": [0, 1]}], "html": True}
-        fs = self.oracle(case, self.impl(case))
-        for f in fs:
-            f.case = case
-        return fs
+        """No recorded finding is left to replay: the `None` line goal (former known finding) can no longer
+        be registered by the instrumentation (fixed by /repo commit bc886c7); the genexpr module is still
+        part of every real pipeline run, where nothing is excused."""
+        return []
 
 
 if __name__ == "__main__":
